@@ -14,7 +14,7 @@ from typing import Dict, List, Optional
 import z3
 
 from .ghost import SymbolicOnly
-from .interp import Interp, PyRaise, Infeasible, Obligation, zbool, simp, CutReached
+from .interp import Interp, PyRaise, Infeasible, Obligation, zbool, simp, CutReached, ShapeOutOfDate
 from .values import Unsupported, SObj, SStr, SSet
 from .contract import ContractInfo, SymFactory, ConcreteFactory, Registry
 from .source import ClassInfo
@@ -410,6 +410,51 @@ def deep_state(v, memo=None, depth=0):
     return repr(type(v))
 
 
+def _shape_guard(e, vals):
+    """an AttributeError for an attribute that the class's own constructor sets, on an input object that was built field by field
+    by a contract: the contract's input shape is out of date (HarnessError), the code is not wrong"""
+    import re
+    import inspect
+    m = re.search(r"'(\w+)' object has no attribute '(\w+)'", str(e))
+    if not m:
+        return
+    cname, attr = m.group(1), m.group(2)
+    seen = set()
+
+    def walk(v, depth):
+        if id(v) in seen or depth > 4:
+            return None
+        seen.add(id(v))
+        if type(v).__name__ == cname and not hasattr(v, attr):
+            return type(v)
+        if isinstance(v, dict):
+            items = list(v.values())
+        elif isinstance(v, (list, tuple, set)):
+            items = list(v)
+        elif hasattr(v, '__dict__') and not isinstance(v, type):
+            items = list(vars(v).values())
+        else:
+            return None
+        for x in items:
+            r = walk(x, depth + 1)
+            if r is not None:
+                return r
+        return None
+    cls = walk(vals, 0)
+    if cls is None:
+        return
+    for c in cls.__mro__:
+        init = c.__dict__.get('__init__')
+        if init is None:
+            continue
+        try:
+            src = inspect.getsource(init)
+        except (OSError, TypeError):
+            continue
+        if re.search(r'self\.' + re.escape(attr) + r'\b\s*(:[^=]+)?=', src):
+            raise HarnessError(f'the input shape of the contract lacks attribute {attr!r}, which {c.__name__}.__init__ sets')
+
+
 class HarnessError(Exception):
     """the native harness itself cannot run (e.g. the loop a step contract names is not in the source any more): never a verdict"""
 
@@ -455,7 +500,18 @@ def native_step(ci: ContractInfo, vals: dict):
     ast.fix_missing_locations(mod)
     glb = dict(fn.__globals__)
     exec(compile(mod, f'<step of {ci.target}>', 'exec'), glb)
-    flow, value, loc = glb['__step__'](**{k: vals[k] for k in names})
+    try:
+        flow, value, loc = glb['__step__'](**{k: vals[k] for k in names})
+    except NameError as e:        # (UnboundLocalError is a NameError)
+        nm = getattr(e, 'name', None)
+        if nm is None:
+            import re as _re
+            m = _re.search(r"variable '(\w+)'|name '(\w+)'", str(e))
+            nm = (m.group(1) or m.group(2)) if m else None
+        if nm is not None and nm not in names and nm not in glb:
+            raise HarnessError(f'the loop body reads the local {nm!r}, which the inputs of the step contract do not provide '
+                               f'(the state of the loop has changed: the contract needs an update)')
+        raise
     for k, v in loc.items():
         if k != '__once__':
             vals[k] = v
@@ -573,6 +629,12 @@ def _replay(ci: ContractInfo, ob_kind: str, ob_label: str, model: dict):
             info.update(confirmed=None, reason='replay harness error: ' + str(e))
             return info
         except Exception as e:   # the real code raised
+            if isinstance(e, AttributeError):
+                try:
+                    _shape_guard(e, vals)
+                except HarnessError as h:
+                    info.update(confirmed=None, reason='replay harness error: ' + str(h))
+                    return info
             exc = e
         info['observed'] = {'raised': type(exc).__name__ + ': ' + str(exc)[:200]} if exc is not None else {'result': _show(result)}
         table = _call_native(ci, 'raises', vals_for(ci, 'raises', old)) if ci.has('raises') else {}
@@ -656,6 +718,9 @@ def native_check(ci: ContractInfo, g: ConcreteFactory):
             result = real_const(ci.const)
     except HarnessError:
         raise
+    except AttributeError as e:
+        _shape_guard(e, vals)
+        exc = e
     except Exception as e:
         exc = e
     failed = []
